@@ -102,7 +102,7 @@ def c13(tier, seed, replay=None):
             if o.get("inner_yx") != o.get("inner") or not o.get("inner_real"):
                 why.append("inner product not symmetric / not real")
             if not why:
-                why.append("space equality: %s" % [(json.dumps(q["sp"]), q["eq"], q["eq_rev"]) for q in o.get("eqs", [])])
+                why.append("space equality (==, reversed ==, !=): %s" % [(json.dumps(q["sp"]), q["eq"], q["eq_rev"], q.get("ne")) for q in o.get("eqs", [])])
         lf = _first_leaf(o["sp"])
         verdict.violation({"space_kind": o["sp"]["k"], "dtype": lf["dt"] if lf else "-", "shape": lf["shape"] if lf else []},
                           {"reason": why, "space": o["sp"], "x": o["x"], "y": o["y"], "observed": {k: o.get(k) for k in ("add", "smul", "inner", "cov", "size")}})
@@ -307,6 +307,13 @@ def c12(tier, seed, replay=None):
             steps = sorted({st["s"] for t in o["prog"] for st in t["acc"]})
             verdict.violation({"tree_kind": o["tree"]["k"], "steps": steps, "outmode": o["outmode"]},
                               {"reason": why, "tree": o["tree"], "prog": o["prog"], "outmode": o["outmode"], "observed_grad": o["grad"]})
+    # tuple-valued results of the library itself (named tuples of eigh / eig / svd / slogdet): rule-table machinery, Contract!C12
+    from checks import rules
+    v2, cov2 = rules.c12_tuples(tier, seed)
+    verdict.violations += v2.violations
+    states += cov2["states"]
+    trans += cov2["transitions"]
+    tuple_note = {k: cov2[k] for k in ("families", "not_evaluated", "calls_that_raised", "observations_rejected_by_contract")}
     step_cov = {}
     for o in keep_obs:
         for t in o["prog"]:
@@ -314,7 +321,7 @@ def c12(tier, seed, replay=None):
                 step_cov[st["s"]] = step_cov.get(st["s"], 0) + 1
     coverage = {"states": states, "transitions": trans, "traces_validated_against_impl": len(keep_obs), "traces_accepted": len(accepted),
                 "evaluations": len(obs), "distinct_nontrivial": len({json.dumps([o["tree"], o["prog"], o["outmode"]], sort_keys=True) for o in keep_obs if o["prog"]}),
-                "families": notes, "access_steps_exercised": step_cov, "forward_mode": {"raised": sum(1 for o in keep_obs if o["jvp"] == "raised"),
+                "families": notes, "named_tuple_results": tuple_note, "access_steps_exercised": step_cov, "forward_mode": {"raised": sum(1 for o in keep_obs if o["jvp"] == "raised"),
                                                                                       "value": sum(1 for o in keep_obs if o["jvp"].startswith("val:"))},
                 "exhaustive": not quick,
                 "rule": "a case = (tree, program, output mode): trees = every tuple/list of <= 3 leaves and dict of <= 2 (thorough: depth 2 with nested "
